@@ -362,6 +362,14 @@ program!(
     }
 );
 program!(
+    /// (C11) an operation node that is tracked but does not keep its gradient, consumed twice
+    RetrackedSquare, |l| {
+        let k = l[0].mul(&l[1]).retrack();
+        let y = k.mul(&k);
+        vec![k, y]
+    }
+);
+program!(
     /// (C11) a node used through a tracked handle and through a detached handle by one consumer
     DetachedUse, |l| {
         let y = l[0].mul(&l[1]);
